@@ -309,8 +309,20 @@ func replayHistory(c *core.Ctx, idx int64, ops []psOp) {
 		model[i] = modelSet{}
 	}
 	c.Eval(nSets)
+	rt := &retained{}
+	kept := 0
+	defer func() { rt.recheck(c, "pathset history: "+histText(ops, len(ops))) }()
 	for step, o := range ops {
 		w := histText(ops, step)
+		// clause (a): the paths handed to this step are not changed by it
+		var argNow, argSnap []cty.Path
+		if o.path.p != nil {
+			argNow = append(argNow, o.path.p)
+		}
+		for _, q := range o.paths {
+			argNow = append(argNow, q.p)
+		}
+		argSnap = snapPaths(argNow)
 		site := "PathSet." + o.name
 		if strings.HasPrefix(o.name, "Path.") || o.name == "NewPathSet" {
 			site = o.name
@@ -348,9 +360,24 @@ func replayHistory(c *core.Ctx, idx int64, ops []psOp) {
 			if !out.Panicked && got != model[o.a][o.path.key()] {
 				c.Violate(site, "membership differs from the model set", "", w, fmt.Sprintf("Has = %v, model set %s", got, model[o.a].text()))
 			}
+			if !out.Panicked {
+				var again bool
+				o2 := core.Guard(func() { again = real[o.a].Has(o.path.p) })
+				c.Eval(1)
+				c.Count("clause:repeatable")
+				if o2.Panicked || again != got {
+					c.Violate(site, facetNotRepeatable, "", w, fmt.Sprintf("Has = %v, then %v %s", got, again, o2.PanicMsg))
+				}
+			}
 		case "List":
-			// compared for every set after every step, below
-			out = core.Guard(func() { real[o.a].List() })
+			// compared for every set after every step, below; a few returned slices are retained
+			// and must still hold the same paths when the history is over (clause c)
+			var lst []cty.Path
+			out = core.Guard(func() { lst = real[o.a].List() })
+			if !out.Panicked && kept < 3 {
+				rt.keepPaths("PathSet.List", lst)
+				kept++
+			}
 		case "Empty":
 			var got bool
 			out = core.Guard(func() { got = real[o.a].Empty() })
@@ -444,6 +471,9 @@ func replayHistory(c *core.Ctx, idx int64, ops []psOp) {
 			c.Violate(site, "panic: "+core.PanicClass(out.PanicMsg), "", w, out.PanicMsg+"\n"+out.Stack)
 			return
 		}
+		if len(argNow) > 0 {
+			argPaths(c, site, w, argSnap, argNow)
+		}
 		// full state comparison of every set after every step
 		for i := range real {
 			var lst []cty.Path
@@ -453,6 +483,10 @@ func replayHistory(c *core.Ctx, idx int64, ops []psOp) {
 			if lo.Panicked {
 				c.Violate("PathSet.List", "panic: "+core.PanicClass(lo.PanicMsg), "", w, lo.PanicMsg+"\n"+lo.Stack)
 				return
+			}
+			if kept < 3 && len(lst) >= 2 && step%5 == 2 {
+				rt.keepPaths("PathSet.List", lst)
+				kept++
 			}
 			got := modelSet{}
 			bad := false
